@@ -22,6 +22,17 @@ v("keep-rename-unexported", "keep", "all", "", [
     (P, "parseLiteral", "tokenToLeaf"), (P, "shouldShift", "wantShift"), (B, "serializeParams", "serialiseP"), (B, "isSimple", "isAtom"),
     (E, "literalToExpr", "leafFromValue"), (V_, "isLiteralExpr", "isLeafExpr"),
 ], "renaming unexported identifiers must not matter (roles are resolved by use, not by name)")
+v("keep-rename-reducers-and-renderfns", "keep", "all", "", [
+    (R, "func fuzzy(", "func fuzzyOp("), (R, "\tfuzzy,\n", "\tfuzzyOp,\n"), (R, "func boost(", "func boostOp("), (R, "\tboost,\n", "\tboostOp,\n"),
+    (R, "func rangeop(", "func rangeProduction("), (R, "\trangeop,\n", "\trangeProduction,\n"), (R, "func sub(", "func group("), (R, "\tsub,\n", "\tgroup,\n"),
+    (R, "func must(", "func required("), (R, "\tmust,\n", "\trequired,\n"), (R, "func mustNot(", "func prohibited("), (R, "\tmustNot,\n", "\tprohibited,\n"),
+    (RF, "func literal(", "func leaf("), (B, "expr.Literal: literal,", "expr.Literal: leaf,"), (B, "expr.Wild:      literal,", "expr.Wild:      leaf,"), (B, "expr.Regexp:    literal,", "expr.Regexp:    leaf,"), (PG, "expr.Literal: literal,", "expr.Literal: leaf,"),
+    (RF, "func noop(", "func passThrough("), (B, "expr.Must:    noop, ", "expr.Must:    passThrough, "),
+    (RF, "func toInts(", "func bothInts("), (RF, "toInts(rawMin, rawMax)", "bothInts(rawMin, rawMax)"), (RF, "func toFloats(", "func bothFloats("), (RF, "toFloats(rawMin, rawMax)", "bothFloats(rawMin, rawMax)"),
+    (RF, "func rangParam(", "func rangeWithParams("), (B, "rangParam(left, right, rparams)", "rangeWithParams(left, right, rparams)"),
+    (RF, "func likeParam(", "func likeWithParams("), (B, "likeParam(left, right, rparams)", "likeWithParams(left, right, rparams)"),
+    (V_, "validateRange", "checkRange"), (RN, "renderRange", "printRange"), (RN, "renderList", "printList"),
+], "renaming every reducer, render function and helper that carries a known finding must not change any verdict (keys are role-based)")
 v("keep-reorder-reducers", "keep", "all", "", [
     (R, "\tand,\n\tor,\n\tequal,\n\tcompare,\n\tcompareEq,\n\tnot,\n\tsub,\n\tmust,\n\tmustNot,\n\tfuzzy,\n\tboost,\n\trangeop,\n",
         "\trangeop,\n\tboost,\n\tfuzzy,\n\tmustNot,\n\tmust,\n\tsub,\n\tnot,\n\tcompareEq,\n\tcompare,\n\tequal,\n\tor,\n\tand,\n"),
